@@ -304,7 +304,14 @@ def rule_r6(ctx):
             ctx.r.violation(rid, key_of(f, None, "error-task-unprotected"), "ClientDisconnected raised while sending the 500 escapes service()", f.loc(n.ast))
 
 
-RULES = [rule_r1, rule_r2, rule_r3, rule_r4, rule_r5, rule_r6]
+def rule_r7(ctx):
+    """Shared with C12.R3: a client disconnect in mid-response releases a worker paused on the watermark (connected
+    cleared, then notify, inside the lock) - only then does the worker reach the finally-close of the iterable."""
+    from . import c12
+    c12.rule_r3(ctx, rid="C09.R7")
+
+
+RULES = [rule_r1, rule_r2, rule_r3, rule_r4, rule_r5, rule_r6, rule_r7]
 
 from ..selftest import M, T, V  # noqa: E402
 
